@@ -1,9 +1,10 @@
 import DepsDev.Proofs.C03L3Incl
 
 /-!
-# C03 layer L3 for npm, operator `le`: interval membership of a prerelease candidate
+# C03 layer L3 for npm, operator `le`: interval membership of a prerelease candidate (operands without tag)
 
-See `C03L3Incl` for the statement (`L1PNpm`) and the proof script.
+See `C03L3Incl` for the statements and the proof script; `C03L3InclLeP` has the tagged operands
+and the assembled `L1PNpm .le`.
 -/
 namespace DepsDev.Proofs.C03
 
@@ -13,12 +14,6 @@ set_option linter.unusedSimpArgs false
 set_option linter.unusedVariables false
 
 theorem l1p_full_le : L1PFull .le := by l1p_full
-theorem l1p_pre_lt_le : L1PPreO .le .lt := by l1p_pre
-theorem l1p_pre_eq_le : L1PPreO .le .eq := by l1p_pre
-theorem l1p_pre_gt_le : L1PPreO .le .gt := by l1p_pre
 theorem l1p_part_le : L1PPart .le := by l1p_part
-
-theorem l1p_npm_le : L1PNpm .le :=
-  l1p_assemble _ l1p_full_le (l1p_pre_assemble _ l1p_pre_lt_le l1p_pre_eq_le l1p_pre_gt_le) l1p_part_le
 
 end DepsDev.Proofs.C03
